@@ -1,10 +1,13 @@
 """C17 -- Go functions exposed to AWK convert arguments and results as documented.
 
-spec/Native.tla (conversion tables ToGo / FromGo over the documented kinds, zero-fill, variadic spread, results,
-ValidSig, Outcome), spec/NativeMachine.tla (Parse -> Setup -> Call -> Convert -> Return/Abort), MC_Native
-(machine = Outcome, never stuck, totality, round trip, zero-fill, variadic spread), Gen_Native ((signature, arguments)
-cases with the predicted outcome), Trace_Native (multi-function tables and multi-call programs recorded from the
-real interpreter, validated by TLC with the same operators).
+spec/Native.tla (conversion tables ToGoCf / FromGo over the documented kinds -- string kinds receive the string form
+under the CONVFMT in force, AwkText where the spelling is not pinned down --, zero-fill, variadic spread, results,
+ValidSig, the Funcs table with name-ordered indexes and an AWK function shadowing one entry (Dispatch,
+DispatchAgrees), OutcomeFull), spec/NativeMachine.tla (Parse -> Setup -> OtherCalls -> Call -> Convert ->
+Return/Abort), MC_Native (machine = OutcomeFull, never stuck, totality, round trip, zero-fill, variadic spread,
+DispatchRight, StringKindsAgree), Gen_Native ((signature, arguments, CONVFMT, shadowed name) cases with the predicted
+outcome), Trace_Native (multi-function tables and multi-call programs recorded from the real interpreter, validated
+by TLC with the same operators).
 """
 import copy, json, os
 
@@ -14,6 +17,14 @@ def corrupt(case, rnd):
     c = copy.deepcopy(case)
     o = c['outcome']
     if o['o'] in ('ok', 'abort'):
+        pick = rnd.random()
+        if pick < 0.2 and o.get('ran'):           # which Go functions ran
+            i = rnd.randrange(len(o['ran']))
+            o['ran'][i] = 'zz' if o['ran'][i] != 'zz' else 'aa'
+            return c
+        if pick < 0.3 and o.get('dlines'):        # what the other functions returned
+            o['dlines'][rnd.randrange(len(o['dlines']))] += 'z'
+            return c
         known = [p for p in o.get('recv', []) if p['ok']]
         if known:
             p = rnd.choice(known)
@@ -24,11 +35,16 @@ def corrupt(case, rnd):
                 v['n'] += 1
             elif v['k'] == 'f':
                 v['h'] += 1
+            elif v['k'] == 'awk':                  # "the program's own (arg \"\")": name a text that it is not
+                p['val'] = {'k': 's', 's': 'not-the-awk-text'}
             else:
                 v['s'] += 'z'
             return c
         if o['o'] == 'ok' and o['printed']['ok']:
-            o['printed']['val'] += 'z'
+            if o['printed'].get('awk'):
+                o['printed'] = {'ok': True, 'val': 'not-the-awk-text'}
+            else:
+                o['printed']['val'] += 'z'
             return c
         o['o'] = 'abort' if o['o'] == 'ok' else 'ok'
         if o['o'] == 'ok':
@@ -47,8 +63,9 @@ def corrupt_event(ev, rnd):
     e = copy.deepcopy(ev)
     if e.get('o') == 'ok':
         e['printed'] = e['printed'] + 'z'
-        # only events whose printed text is specified can be corrupted this way: echo of a wild value is not
-        if any(a in ('huge', 'nan') for a in e.get('args', [])):
+        # only events whose printed text is specified can be corrupted this way: echo of a wild value to a numeric
+        # kind is not
+        if any(a in ('huge', 'nan', 'inf', 'neginf') for a in e.get('args', [])):
             return None
         return e
     return None
@@ -57,15 +74,28 @@ def corrupt_event(ev, rnd):
 def run(ctx):
     q = ctx.quick
     os.environ['_JAVA_OPTIONS'] = f'-XX:ParallelGCThreads={max(2, min(ctx.cores, 8))}'
-    ctx.rule = ('a case is one (signature, argument list) pair exported by TLC from Gen_Native with the predicted outcome: '
+    ctx.rule = ('a case is one (signature, argument list, CONVFMT setting, shadowed table entry) tuple exported by TLC from '
+                'Gen_Native with the predicted outcome: '
                 'every kind as single parameter, plain and variadic, with every argument list of 0-2 menu values; every '
-                'result kind and error mode; 12 invalid shapes and 7 keyword-like names; random signatures of 0-3 '
-                'parameters with 0..n+2 arguments (-simulate); or one recorded run over a table of 2-5 recording functions '
+                'result kind and error mode; 12 invalid shapes and 7 keyword-like names; string / []byte parameters (one, '
+                'or both receiving the same value) x every menu value x 3 CONVFMT settings; the Funcs table {aa, fn, mm, zz} '
+                'with an AWK function shadowing none / the first / a middle / the last name while the program calls the '
+                'other Go functions and fn; random signatures of 0-3 '
+                'parameters with 0..n+2 arguments, any CONVFMT and shadow (-simulate); or one recorded run over a table of '
+                '2-5 recording functions (one possibly shadowed by an AWK function, CONVFMT possibly changed) '
                 'making 3-6 calls; distinct by content; non-trivial when a conversion, a zero-fill, a rejection or an abort '
                 'is exercised')
     ctx.assumptions += [
-        'argument menu: 3, -3, 2.5, 300, 0, "abc", "12", "0", "", numeric strings 12 and 0 from input, an unset variable, '
-        '1e30 and NaN; for out-of-range / non-finite conversions only "no panic" is judged (Native!Unspecified)',
+        'argument menu: 3, -3, 2.5, 300, 1000000, 0, "abc", "12", "0", "", numeric strings 12 and 0 from input, an unset '
+        'variable, 1e30, NaN, +inf and -inf; for out-of-range / non-finite conversions to NUMERIC kinds only "no panic" is '
+        'judged (Native!Unspecified)',
+        'string kinds: a string arrives as it is, an integral number as an integer, 2.5 through the CONVFMT in force '
+        '(%.6g by default, %.2f, %.3e); for nan, inf, -inf and 1e30 the spelling is not pinned down by the statement: the '
+        'prediction is Native!AwkText, "the text the program\'s own (arg \"\") gives", read from the same run -- so a '
+        'string and a []byte parameter must receive the same text as the AWK conversion, whatever its spelling',
+        'dispatch: documented is that AWK functions take precedence over Funcs entries of the same name; judged are the '
+        'calls of the OTHER entries (which Go function ran, what it returned) and that a call of the shadowed name reaches '
+        'the AWK function',
         'numbers are modelled in halves (TLC has no reals); strings are compared by equality only',
         'rejections are compared as a class (parse error / set-up error), never by message; the aborting error is '
         'compared by identity (==) with the value the function returned',
@@ -74,9 +104,12 @@ def run(ctx):
         '(resolve.go:474 typ.NumIn()), and nil makes checkNativeFunc dereference a nil reflect.Type at set-up',
     ]
     ctx.build()
-    mc = ctx.cfg('MC_Native', constants=dict(MaxArgs=1 if q else 2))
-    ctx.tlc('MC_Native', mc, timeout=1500, heap='8g')
-    g = ctx.cfg('Gen_Native', name='Gen_Native_small', constants=dict(Family='"small"'))   # args + results + invalid
+    if os.environ.get('VERIF_SKIP_MODEL'):      # development aid for runs against changed code: the model does not depend on the code
+        ctx.notes.append('model run skipped (VERIF_SKIP_MODEL)')
+    else:
+        mc = ctx.cfg('MC_Native', constants=dict(MaxArgs=1 if q else 2))
+        ctx.tlc('MC_Native', mc, timeout=1500, heap='8g')
+    g = ctx.cfg('Gen_Native', name='Gen_Native_small', constants=dict(Family='"small"'))   # args + results + invalid + strform + dispatch
     ctx.tlc('Gen_Native', g, capture='cases.ndjson', timeout=1500, heap='8g')
     g = ctx.cfg('Gen_Native', name='Gen_Native_wide', constants=dict(Family='"wide"'))
     ctx.tlc('Gen_Native', g, capture='cases.ndjson', simulate=(2500 if q else 40000), depth=20, workers=min(4, ctx.cores),
@@ -95,10 +128,10 @@ def run(ctx):
         elif ev.get('o') != exp.get('o'):
             sig = f"C17/outcome/spec-{exp.get('o')}-real-{ev.get('o')}/recorded"
         elif ev.get('got') != ev['sig']['name']:
-            sig = 'C17/dispatch/wrong-function/recorded'
+            sig = 'C17/dispatch/wrong-function/recorded' + ('-shadowed' if ev.get('shadow', 'none') != 'none' else '')
         else:
-            sig = 'C17/convert/recorded'
-        case = dict(fam='native', sig=ev['sig'], args=ev['args'], called=True,
+            sig = 'C17/convert/recorded' + ('-convfmt-changed' if ev.get('cf', '%.6g') != '%.6g' else '')
+        case = dict(fam='native', sig=ev['sig'], args=ev['args'], called=True, shadow='none', cf=ev.get('cf', '%.6g'),
                     outcome=exp if exp.get('o') in ('ok', 'abort') else {'o': exp.get('o')})
         ctx.add_failure(sig, f'recorded call rejected by Trace_Native at event {r["line"]}', case=case, expected=exp,
-                        observed={k: ev.get(k) for k in ('o', 'got', 'recv', 'printed', 'own', 'panic')}, program=ev.get('src'))
+                        observed={k: ev.get(k) for k in ('o', 'got', 'recv', 'printed', 'own', 'panic', 'awk', 'shadow', 'cf')}, program=ev.get('src'))
